@@ -231,3 +231,37 @@ Example C19_word_examples :
   array_new_w 0 [4294967296; 4294967296] = false /\ array_new_w 0 [9223372036854775808; 4; 0] = false.
 Proof. exact word_examples. Qed.
 Close Scope N_scope.
+
+(* Array::get_axis at word level (Model/Word.v): where the view's data starts. On a non-empty accepted array it is
+   index * stride, inside the data, as in ArrayM.get_axis; on an empty array every view is empty; a view exists exactly for
+   an axis of the array and a position on it, with no other outcome (F27: the unrepaired `index * stride` overflowed on an
+   accepted empty array with saturated strides - the refutation is kept). *)
+Open Scope N_scope.
+Theorem C19_word_axis_view_start : forall len sh a i,
+  array_new_w len sh = true -> Forall (fun v => 0 < v) sh -> (a < length sh)%nat -> i < nth a sh 0 ->
+  axis_offset_w len sh a i = Some (i * nth a (stridesN sh) 0) /\ i * nth a (stridesN sh) 0 < len.
+Proof. exact axis_offset_w_exact. Qed.
+Print Assumptions C19_word_axis_view_start.
+
+Theorem C19_word_axis_view_of_empty_array : forall sh a i,
+  array_new_w 0 sh = true -> (a < length sh)%nat -> i < nth a sh 0 -> axis_offset_w 0 sh a i = Some 0.
+Proof. exact axis_offset_w_empty. Qed.
+Print Assumptions C19_word_axis_view_of_empty_array.
+
+Theorem C19_word_axis_view_exists_iff : forall len sh a i,
+  (exists o, axis_offset_w len sh a i = Some o /\ o <= len) <-> ((a < length sh)%nat /\ i < nth a sh 0).
+Proof. exact axis_offset_w_some_iff. Qed.
+Print Assumptions C19_word_axis_view_exists_iff.
+
+Theorem C19_word_axis_view_unrepaired_overflow_refuted :
+  array_new_w 0 [0; 3; wmax] = true /\ axis_offset_unrepaired_w [0; 3; wmax] 1 2 = WOverflow /\
+  axis_offset_w 0 [0; 3; wmax] 1 2 = Some 0.
+Proof. exact axis_offset_unrepaired_overflow_refuted. Qed.
+Print Assumptions C19_word_axis_view_unrepaired_overflow_refuted.
+
+Theorem C19_word_axis_view_refines_model : forall len (sh : list nat) a i,
+  array_new_w len (map N.of_nat sh) = true -> Forall (fun v => (0 < v)%nat) sh -> (a < length sh)%nat -> (i < nth a sh 0%nat)%nat ->
+  axis_offset_w len (map N.of_nat sh) a (N.of_nat i) = Some (N.of_nat (i * nth a (strides sh) 0%nat)).
+Proof. exact axis_offset_w_refines. Qed.
+Print Assumptions C19_word_axis_view_refines_model.
+Close Scope N_scope.
